@@ -37,11 +37,13 @@ impl Future for EventFut {
     fn poll(self: Pin<&mut Self>, cx: &mut Context) -> Poll<()> {
         rt::thread::yield_now();
         let mut st = self.ctx.events[self.e].st.lock().unwrap();
-        if st.0 { Poll::Ready(()) } else {
+        desync::verif::log("sf", "EVPOLL", self.e, if st.0 { "ready".to_string() } else { "pending".to_string() });
+        if st.0 { desync::verif::log("api", "AWAITREADY", self.e, String::new()); Poll::Ready(()) } else {
             st.1.push(cx.waker().clone());
+            desync::verif::log("api", "AWAITREG", self.e, String::new());
             drop(st);
             // tell whoever scripted it that this operation is now suspended with its waker registered
-            if let Some(e2) = self.sig { let ws = { let mut s2 = self.ctx.events[e2].st.lock().unwrap(); s2.0 = true; std::mem::take(&mut s2.1) }; for w in ws { w.wake(); } }
+            if let Some(e2) = self.sig { let ws = { let mut s2 = self.ctx.events[e2].st.lock().unwrap(); desync::verif::log("api", "FIRE", e2, String::new()); s2.0 = true; std::mem::take(&mut s2.1) }; for w in ws { w.wake(); } }
             Poll::Pending
         }
     }
@@ -143,6 +145,7 @@ impl Ctx {
         let tr = { let g = self.in_try.lock().unwrap(); g.get(&my_task()).copied() };
         if let Some(t0) = tr { if t0 != oid && self.with_op(oid, |r| r.obj) == self.with_op(t0, |r| r.obj) { self.error("C09", format!("try_sync {} ran operation {} on its caller's thread (it took over the queue instead of returning Busy)", t0, oid)); } }
         let (runs, obj) = self.with_op(oid, |r| { r.runs += 1; r.start = t; (r.runs, r.obj) });
+        desync::verif::log("sf", "OSTART", oid, format!("{}", obj));
         if runs != 1 { self.error("C03", format!("operation {} ran {} times", oid, runs)); }
         if p.mon.id != obj { self.error("C14", format!("operation {} got the payload of object {}", oid, p.mon.id)); }
         self.touch(oid, p);
@@ -159,6 +162,7 @@ impl Ctx {
         }
     }
     fn op_end(&self, oid: usize, mon: &ObjMon, cancelled: bool) {
+        desync::verif::log("sf", "OEND", oid, if cancelled { "cancelled".to_string() } else { "finished".to_string() });
         mon.occ.fetch_sub(1, SeqCst);
         let t = self.tick();
         self.with_op(oid, |r| { r.end = t; r.cancelled = cancelled; });
@@ -215,23 +219,26 @@ fn run_body_async<'a>(ctx: Arc<Ctx>, oid: usize, body: Vec<Prim>, p: &'a mut Pay
     }.boxed()
 }
 
-struct ThreadWaker { flag: AtomicBool, th: rt::thread::Thread }
-impl ArcWake for ThreadWaker { fn wake_by_ref(a: &Arc<Self>) { a.flag.store(true, SeqCst); a.th.unpark(); } }
+struct ThreadWaker { flag: AtomicBool, th: rt::thread::Thread, task: usize }
+impl ArcWake for ThreadWaker { fn wake_by_ref(a: &Arc<Self>) { desync::verif::log("api", "TWAKE", a.task, String::new()); a.flag.store(true, SeqCst); a.th.unpark(); } }
 
 /// Minimal park-based executor; with `max_polls = Some(n)` the future is dropped after n polls that returned Pending
 pub fn block_on<F: Future + Unpin>(mut f: F, max_polls: Option<usize>) -> Option<F::Output> {
-    let tw = Arc::new(ThreadWaker { flag: AtomicBool::new(false), th: rt::thread::current() });
+    let tw = Arc::new(ThreadWaker { flag: AtomicBool::new(false), th: rt::thread::current(), task: my_task() });
     let w = waker(tw.clone());
     let mut cx = Context::from_waker(&w);
     let mut polls = 0;
     loop {
-        if let Some(m) = max_polls { if polls >= m { return None; } }
+        if let Some(m) = max_polls { if polls >= m { desync::verif::log("sf", "DROPFUT", polls, String::new()); return None; } }
+        desync::verif::log("sf", "POLL", polls, String::new());
         match Pin::new(&mut f).poll(&mut cx) {
             Poll::Ready(v) => return Some(v),
             Poll::Pending => {
                 polls += 1;
-                if let Some(m) = max_polls { if polls >= m { return None; } }
+                if let Some(m) = max_polls { if polls >= m { desync::verif::log("sf", "DROPFUT", polls, String::new()); return None; } }
+                desync::verif::log("api", "PARK", 0, String::new());
                 while !tw.flag.swap(false, SeqCst) { rt::thread::park(); }
+                desync::verif::log("api", "UNPARKED", 0, String::new());
             }
         }
     }
@@ -251,7 +258,8 @@ fn check_ok_token(ctx: &Ctx, oid: usize, what: &str, got: Option<usize>) {
 pub fn exec_op(ctx: &Arc<Ctx>, op: &Op, caller: usize, nested: bool, local: &mut Local) {
     match op {
         Op::Fire(e) => {
-            let ws = { let mut st = ctx.events[*e].st.lock().unwrap(); st.0 = true; std::mem::take(&mut st.1) };
+            desync::verif::log("sf", "FIRE", *e, String::new());
+            let ws = { let mut st = ctx.events[*e].st.lock().unwrap(); desync::verif::log("api", "FIRE", *e, String::new()); st.0 = true; std::mem::take(&mut st.1) };
             for w in ws { w.wake(); }
             return;
         }
@@ -260,6 +268,7 @@ pub fn exec_op(ctx: &Arc<Ctx>, op: &Op, caller: usize, nested: bool, local: &mut
         Op::Resume => { if let Some(r) = local.resumer.take() { let t = ctx.tick(); if let Some(o) = local.susp_op.take() { ctx.with_op(o, |x| x.end = t); } r.resume(); } return; }
         Op::DropResumer => { if let Some(r) = local.resumer.take() { let t = ctx.tick(); if let Some(o) = local.susp_op.take() { ctx.with_op(o, |x| x.end = t); } drop(r); } return; }
         Op::WaitEv(e) => { block_on(EventFut { ctx: ctx.clone(), e: *e, sig: None }, None); return; }
+        Op::Yield(n) => { for _ in 0..*n { rt::thread::yield_now(); } return; }
         Op::Noise(c) => { let t = { let g = ctx.threads.lock().unwrap(); g.get(*c).cloned().flatten() }; if let Some(t) = t { t.unpark(); } return; }
         Op::AwaitUnwind => {
             // every started panic has been caught either by a caller's top level or at the top of a pool thread
@@ -385,12 +394,13 @@ pub fn exec_op(ctx: &Arc<Ctx>, op: &Op, caller: usize, nested: bool, local: &mut
             let body = body.clone();
             ctx.with_op(oid, |r| r.accepted = true);
             let fut = obj.future_sync(move |p| run_body_async(c2, oid, body, p, caller, false));
+            desync::verif::log("sf", "YNEW", oid, String::new());
             let fut = fut.boxed();
             let ret = ctx.tick();
             ctx.with_op(oid, |r| r.ret = ret);
             match mode {
-                Mode::PollDrop(n) => { let r = block_on(fut, Some(*n)); if let Some(r) = r { check_ok_token(ctx, oid, "C08", r.ok()); } else { ctx.with_op(oid, |r| if r.end == 0 { r.cancelled = true }); } }
-                _ => { let r = block_on(fut, None).unwrap(); check_ok_token(ctx, oid, "C08", r.ok()); }
+                Mode::PollDrop(n) => { let r = block_on(fut, Some(*n)); desync::verif::log("sf", "YDONE", oid, match &r { Some(Ok(v)) => format!("ok {}", v), Some(Err(_)) => "err".to_string(), None => "dropped".to_string() }); if let Some(r) = r { check_ok_token(ctx, oid, "C08", r.ok()); } else { ctx.with_op(oid, |r| if r.end == 0 { r.cancelled = true }); } }
+                _ => { let r = block_on(fut, None).unwrap(); desync::verif::log("sf", "YDONE", oid, match &r { Ok(v) => format!("ok {}", v), Err(_) => "err".to_string() }); check_ok_token(ctx, oid, "C08", r.ok()); }
             }
             drop(obj);
             return;
